@@ -250,3 +250,15 @@ register("C08", title="output stream next-message lookup", pkg="./internal/outpu
          floor={"quick": 2000, "thorough": 50000},
          technique="controlled-schedule exploration of the real code (sync shim) with an interval-wise sorted-set oracle; race detector on real threads",
          level_text="randomised (not exhaustive) exploration of the interleavings of lock-protected steps; every reported schedule is replayable")
+
+
+register("C09", title="LevelDB store honours LogStore / StableStore", pkg="./internal/raftstore",
+         parts=[{"test": "^TestVerifC09$", "children": {"quick": 16, "thorough": 16}, "cases": {"quick": 40, "thorough": 700}}],
+         timeout={"quick": 300, "thorough": 1800}, level="exploration",
+         rule="seeded operation sequences (StoreLog(s), StoreLogProto, DeleteRange, Set/Get, SetUint64/GetUint64, First/LastIndex, GetLog, close+reopen in "
+              "JSON or protobuf mode, JSON->protobuf conversion) over small indexes, byte-boundary indexes and indexes whose key bytes sort around the "
+              "'stablestore-' prefix, compared with an in-memory map after every operation; plus child processes executing 400-operation programs that "
+              "are SIGKILLed at a PRNG-chosen operation and whose store must equal the model after the last completed or the in-flight operation. "
+              "evaluations = operations checked + kills; distinct = (start mode, operation kinds, size) per sequence and (in-flight op, position) per kill",
+         floor={"quick": 5000, "thorough": 100000},
+         technique="reference-model comparison after every operation; kill/reopen crash points in a child process")
